@@ -343,3 +343,29 @@ func requestWatchdog(p ReqParams) time.Duration {
 	e2e := time.Duration(p.E2e) * time.Second
 	return 3*(time.Duration(n)*per+e2e) + 40*time.Second
 }
+
+// handshakesDelivered counts the SACK attempts on a wire (handles that installed the SYN-ACK filter) and how many
+// of them were handed their connection's SYN-ACK by the capture handle. The connection itself is made by the
+// real kernel; if the harness could not show the SYN-ACK to an attempt (the accept queue lagging behind connect
+// on a busy machine), what that attempt then does is not evidence about the code under test.
+func handshakesDelivered(w *Wire) (attempts, delivered int) {
+	for i, src := range w.Sources {
+		isAttempt := false
+		for _, sp := range src.Spec {
+			if sp.FilterType == packets.FilterTypeSYNACK {
+				isAttempt = true
+			}
+		}
+		if !isAttempt {
+			continue
+		}
+		attempts++
+		for _, e := range w.Reads(i) {
+			if e.Tag != nil && e.Tag.Class == "handshake" {
+				delivered++
+				break
+			}
+		}
+	}
+	return
+}
